@@ -14,7 +14,14 @@
 //!   * a valid stream yields exactly its messages, then `None`, no error,
 //!   * the ended body is polled at most once more during the drain,
 //!   * a data-only body that ends plainly inside a frame yields an error before the end of the
-//!     stream (also right after the five prefix bytes: F-C07e, fixed).
+//!     stream (also right after the five prefix bytes: F-C07e, fixed),
+//!   * Request + CANCELLED body error (N-C07-1): a clean end after every complete frame before it;
+//!     afterwards, over a body that has ended, no message ever, and exactly one Err(INTERNAL) iff a
+//!     message had been cut,
+//!   * once an error has been yielded the body is never polled again; every later poll polls an
+//!     ended body at most once (L-C07-5),
+//!   * Streaming::message() / trailers() (kinds api.*): same per-message clauses, trailers() returns
+//!     the trailers of a valid stream exactly once.
 use bytes::{Buf, Bytes};
 use http::{HeaderMap, HeaderName, HeaderValue};
 use http_body::{Body, Frame};
@@ -31,7 +38,12 @@ use vcommon::body::{noop_waker, Ev, ScriptBody};
 use vcommon::*;
 
 const IMPORTS: &str =
-    "From Verif Require Import Lib.Bytes Lib.Obs Lib.HeaderMap Model.Status Model.Decoder.";
+    "From Verif Require Import Lib.Bytes Lib.Obs Lib.HeaderMap Model.Status Model.Decoder Model.DecoderExt.";
+/// http-1.x HeaderMap can overflow ("size overflows MAX_SIZE") only beyond this many entries: its
+/// table grows when it is full (3/4 of the slots; the last growth, to MAX_SIZE = 32768 slots, is
+/// allowed) or, on the hash-collision path (Danger::Yellow), when entries * 5 >= slots - asking
+/// for 65536 slots needs 32768 slots and so at least 6554 entries
+const HM_SAFE_ENTRIES: usize = 6553;
 const DEFAULT_LIMIT: usize = 4 * 1024 * 1024;
 
 // ------------------------------------------------------------------ allocation meter
@@ -409,6 +421,24 @@ fn real_decompress(e: Enc, b: &[u8]) -> Option<Vec<u8>> {
     };
     r.ok().map(|_| out)
 }
+/// what the real decompressor had written when it failed (0 if it succeeds): the bytes
+/// std::io::copy has pushed into out_buf before decompress() returns Err
+fn real_decompress_partial(e: Enc, b: &[u8]) -> usize {
+    let mut out = vec![];
+    let r = match e {
+        Enc::Gzip => flate2::read::GzDecoder::new(b).read_to_end(&mut out).map(|_| ()),
+        Enc::Deflate => flate2::read::ZlibDecoder::new(b).read_to_end(&mut out).map(|_| ()),
+        Enc::Zstd => match zstd::stream::read::Decoder::new(b) {
+            Ok(mut d) => d.read_to_end(&mut out).map(|_| ()),
+            Err(e) => Err(e),
+        },
+    };
+    if r.is_err() {
+        out.len()
+    } else {
+        0
+    }
+}
 fn frame(flag: u8, p: &[u8]) -> Vec<u8> {
     let mut v = vec![flag];
     v.extend_from_slice(&(p.len() as u32).to_be_bytes());
@@ -454,6 +484,11 @@ struct Ran {
     pae2: usize,
     drained: bool,
     panic: Option<String>,
+    /// polls of the body underneath when the first Err was yielded / at the very end
+    bp_err: Option<usize>,
+    bp_end: usize,
+    /// text of the first error yielded (oracle only; the tie compares codes)
+    err_text: Option<String>,
 }
 
 fn drive<T, D>(inp: &Input, fuel: usize, extra: usize, dec: D, to_bytes: fn(T) -> Vec<u8>) -> Ran
@@ -479,6 +514,11 @@ where
     let enc = inp.enc.map(|e| e.tonic());
     let shared: Arc<Mutex<(Vec<R>, usize, Vec<R>, usize, bool)>> = Arc::new(Mutex::new((vec![], 0, vec![], 0, false)));
     let sh = shared.clone();
+    let bp_err: Arc<Mutex<Option<usize>>> = Arc::new(Mutex::new(None));
+    let bpe = bp_err.clone();
+    let polls_in = polls.clone();
+    let err_text: Arc<Mutex<Option<String>>> = Arc::new(Mutex::new(None));
+    let ete = err_text.clone();
     let dir = inp.dir;
     let max = inp.max;
     MAX_ALLOC.store(0, Ordering::SeqCst);
@@ -495,13 +535,19 @@ where
                 Poll::Pending => R::Pending,
                 Poll::Ready(None) => R::Done,
                 Poll::Ready(Some(Ok(m))) => R::Ok(to_bytes(m)),
-                Poll::Ready(Some(Err(st))) => R::Err(st.code() as i32),
+                Poll::Ready(Some(Err(st))) => {
+                    ete.lock().unwrap().get_or_insert(st.message().to_string());
+                    R::Err(st.code() as i32)
+                }
             }
         };
         let mut done = false;
         for _ in 0..fuel {
             let r = poll(&mut s);
             let d = r == R::Done;
+            if matches!(r, R::Err(_)) {
+                bpe.lock().unwrap().get_or_insert(polls_in.load(Ordering::SeqCst));
+            }
             sh.lock().unwrap().0.push(r);
             if d {
                 done = true;
@@ -516,13 +562,18 @@ where
         if done {
             for _ in 0..extra {
                 let r = poll(&mut s);
+                if matches!(r, R::Err(_)) {
+                    bpe.lock().unwrap().get_or_insert(polls_in.load(Ordering::SeqCst));
+                }
                 sh.lock().unwrap().2.push(r);
             }
         }
     }));
     let max_alloc = MAX_ALLOC.load(Ordering::SeqCst);
     let g = shared.lock().unwrap();
-    Ran { max_alloc, t1: g.0.clone(), pae1: g.1, t2: g.2.clone(), pae2: pae_out.load(Ordering::SeqCst), drained: g.4, panic: res.err() }
+    let bp_err = *bp_err.lock().unwrap();
+    let err_text = err_text.lock().unwrap().clone();
+    Ran { max_alloc, t1: g.0.clone(), pae1: g.1, t2: g.2.clone(), pae2: pae_out.load(Ordering::SeqCst), drained: g.4, panic: res.err(), bp_err, bp_end: polls.load(Ordering::SeqCst), err_text }
 }
 
 fn run(inp: &Input, fuel: usize, extra: usize) -> Ran {
@@ -531,6 +582,127 @@ fn run(inp: &Input, fuel: usize, extra: usize) -> Ran {
         Codec::Raw => drive::<Vec<u8>, _>(inp, fuel, extra, RawDecoder { bs }, |m| m),
         Codec::Prost => drive::<TestMsg, _>(inp, fuel, extra, ProstCodec::<TestMsg, TestMsg>::raw_decoder(bs), |m| prost::Message::encode_to_vec(&m)),
     }
+}
+
+
+// ------------------------------------------------------------------ Streaming::message() / trailers()
+#[derive(Clone, Copy, Debug, PartialEq, Eq)]
+enum Op {
+    Message,
+    Trailers,
+}
+#[derive(Clone, Debug, PartialEq)]
+enum A {
+    Msg(Vec<u8>),
+    MsgNone,
+    Err(i32),
+    TrSome(HeaderMap),
+    TrNone,
+    Fuel,
+}
+impl A {
+    fn tr(&self) -> Tr {
+        match self {
+            A::Msg(p) => Tr::L(vec![Tr::n(1u8), Tr::b(p)]),
+            A::Err(c) => Tr::L(vec![Tr::n(2u8), Tr::n(*c as u32)]),
+            A::MsgNone => Tr::L(vec![Tr::n(3u8)]),
+            A::Fuel => Tr::L(vec![Tr::n(5u8)]),
+            A::TrSome(m) => Tr::L(vec![Tr::n(6u8), hm_tr(m)]),
+            A::TrNone => Tr::L(vec![Tr::n(7u8)]),
+        }
+    }
+    fn to_json(&self) -> Value {
+        match self {
+            A::Msg(p) => json!(["M", hex(p)]),
+            A::MsgNone => json!(["N"]),
+            A::Err(c) => json!(["E", c]),
+            A::TrSome(m) => json!(["T", hm_json(m)]),
+            A::TrNone => json!(["t"]),
+            A::Fuel => json!(["F"]),
+        }
+    }
+    fn from_json(v: &Value) -> A {
+        match v[0].as_str().unwrap() {
+            "M" => A::Msg(unhex(v[1].as_str().unwrap())),
+            "N" => A::MsgNone,
+            "E" => A::Err(v[1].as_i64().unwrap() as i32),
+            "T" => A::TrSome(hm_from_json(&v[1])),
+            "t" => A::TrNone,
+            _ => A::Fuel,
+        }
+    }
+}
+struct RanApi {
+    res: Vec<A>,
+    panic: Option<String>,
+}
+fn drive_api<T, D>(inp: &Input, ops: &[Op], fuel: usize, dec: D, to_bytes: fn(T) -> Vec<u8>) -> RanApi
+where
+    T: 'static,
+    D: Decoder<Item = T, Error = Status> + Send + 'static,
+{
+    let evs: Vec<Ev<Status>> = inp
+        .evs
+        .iter()
+        .map(|e| match e {
+            E::Pending => Ev::Pending,
+            E::Data(d) => Ev::Data(d.clone()),
+            E::Trailers(t) => Ev::Trailers(trailers_map(t)),
+            E::BigTrailers(n, t) => Ev::Trailers(big_trailers(*n, *t)),
+            E::Err(c) => Ev::Err(Status::new(Code::from(*c), "scripted body error")),
+        })
+        .collect();
+    let (body, _pae) = ScriptBody::new(evs);
+    let polls = Arc::new(AtomicUsize::new(0));
+    let body = Guard { inner: body, polls, cap: (inp.evs.len() + fuel + 8) * (ops.len() + 1) };
+    let enc = inp.enc.map(|e| e.tonic());
+    let shared: Arc<Mutex<Vec<A>>> = Arc::new(Mutex::new(vec![]));
+    let sh = shared.clone();
+    let (dir, max) = (inp.dir, inp.max);
+    let ops = ops.to_vec();
+    let res = catch(std::panic::AssertUnwindSafe(move || {
+        let mut s: Streaming<T> = match dir {
+            Dir::Request => Streaming::new_request(dec, body, enc, max),
+            Dir::Response(h) => Streaming::new_response(dec, body, http::StatusCode::from_u16(h).unwrap(), enc, max),
+            Dir::Empty => Streaming::new_empty(dec, body),
+        };
+        for op in ops {
+            let a = match op {
+                Op::Message => match vcommon::body::spin(s.message(), fuel) {
+                    Err(()) => A::Fuel,
+                    Ok(Ok(Some(m))) => A::Msg(to_bytes(m)),
+                    Ok(Ok(None)) => A::MsgNone,
+                    Ok(Err(st)) => A::Err(st.code() as i32),
+                },
+                Op::Trailers => match vcommon::body::spin(s.trailers(), fuel) {
+                    Err(()) => A::Fuel,
+                    Ok(Ok(Some(m))) => A::TrSome(m.into_headers()),
+                    Ok(Ok(None)) => A::TrNone,
+                    Ok(Err(st)) => A::Err(st.code() as i32),
+                },
+            };
+            let stop = a == A::Fuel;
+            sh.lock().unwrap().push(a);
+            if stop {
+                break;
+            }
+        }
+    }));
+    let g = shared.lock().unwrap();
+    RanApi { res: g.clone(), panic: res.err() }
+}
+fn run_api(inp: &Input, ops: &[Op], fuel: usize) -> RanApi {
+    let bs = BufferSettings::new(inp.buffer_size, 32 * 1024);
+    match inp.codec {
+        Codec::Raw => drive_api::<Vec<u8>, _>(inp, ops, fuel, RawDecoder { bs }, |m| m),
+        Codec::Prost => drive_api::<TestMsg, _>(inp, ops, fuel, ProstCodec::<TestMsg, TestMsg>::raw_decoder(bs), |m| prost::Message::encode_to_vec(&m)),
+    }
+}
+fn ops_json(ops: &[Op]) -> Value {
+    json!(ops.iter().map(|o| if *o == Op::Message { "m" } else { "t" }).collect::<Vec<_>>())
+}
+fn ops_from_json(v: &Value) -> Vec<Op> {
+    v.as_array().unwrap().iter().map(|o| if o.as_str() == Some("m") { Op::Message } else { Op::Trailers }).collect()
 }
 
 // ------------------------------------------------------------------ isolation of one case
@@ -561,6 +733,7 @@ fn ran_to_json(r: &Ran) -> Value {
     json!({
         "max_alloc": r.max_alloc, "t1": r.t1.iter().map(r_to_json).collect::<Vec<_>>(), "pae1": r.pae1,
         "t2": r.t2.iter().map(r_to_json).collect::<Vec<_>>(), "pae2": r.pae2, "drained": r.drained, "panic": r.panic,
+        "bp_err": r.bp_err, "bp_end": r.bp_end, "err_text": r.err_text,
     })
 }
 fn ran_from_json(v: &Value) -> Ran {
@@ -572,6 +745,9 @@ fn ran_from_json(v: &Value) -> Ran {
         pae2: v["pae2"].as_u64().unwrap() as usize,
         drained: v["drained"].as_bool().unwrap(),
         panic: v["panic"].as_str().map(|s| s.to_string()),
+        bp_err: v["bp_err"].as_u64().map(|x| x as usize),
+        bp_end: v["bp_end"].as_u64().unwrap_or(0) as usize,
+        err_text: v["err_text"].as_str().map(|s| s.to_string()),
     }
 }
 fn worker_main() {
@@ -585,9 +761,14 @@ fn worker_main() {
         };
         let v: Value = serde_json::from_str(&line).unwrap();
         let inp = Input::from_json(&v["input"]);
-        let ran = run(&inp, v["fuel"].as_u64().unwrap() as usize, v["extra"].as_u64().unwrap() as usize);
+        let line = if v.get("ops").is_some() {
+            let ra = run_api(&inp, &ops_from_json(&v["ops"]), v["fuel"].as_u64().unwrap() as usize);
+            json!({"api": ra.res.iter().map(|a| a.to_json()).collect::<Vec<_>>(), "panic": ra.panic}).to_string()
+        } else {
+            ran_to_json(&run(&inp, v["fuel"].as_u64().unwrap() as usize, v["extra"].as_u64().unwrap() as usize)).to_string()
+        };
         let mut o = stdout.lock();
-        writeln!(o, "{}", ran_to_json(&ran)).unwrap();
+        writeln!(o, "{}", line).unwrap();
         o.flush().unwrap();
     }
 }
@@ -645,29 +826,52 @@ fn run_isolated(inp: &Input, fuel: usize, extra: usize) -> Ran {
         _ => first,
     }
 }
-fn run_isolated_once(inp: &Input, fuel: usize, extra: usize, secs: u64) -> Ran {
+/// one request to the worker process: Ok(answer line) or Err("HANG…" / "ABORT…")
+fn worker_request(req: String, secs: u64) -> Result<String, String> {
     use std::io::Write;
     let mut g = WORKER.lock().unwrap();
     if g.is_none() {
         *g = Some(Worker::spawn());
     }
     let w = g.as_mut().unwrap();
-    let req = json!({"input": inp.to_json(), "fuel": fuel, "extra": extra}).to_string();
     let sent = writeln!(w.stdin, "{}", req).and_then(|_| w.stdin.flush());
     let res = if sent.is_ok() { w.rx.recv_timeout(std::time::Duration::from_secs(secs)) } else { Err(std::sync::mpsc::RecvTimeoutError::Disconnected) };
     match res {
-        Ok(line) => ran_from_json(&serde_json::from_str(&line).unwrap()),
+        Ok(line) => Ok(line),
         Err(e) => {
             let _ = w.child.kill();
             let _ = w.child.wait();
             *g = None;
-            let why = match e {
+            Err(match e {
                 std::sync::mpsc::RecvTimeoutError::Timeout => {
                     format!("HANG: the polls of this case did not return within {} s", secs)
                 }
                 _ => "ABORT: the process died while polling this case".to_string(),
-            };
-            Ran { max_alloc: 0, t1: vec![], pae1: 0, t2: vec![], pae2: 0, drained: false, panic: Some(why) }
+            })
+        }
+    }
+}
+fn run_api_isolated(inp: &Input, ops: &[Op], fuel: usize) -> RanApi {
+    let req = json!({"input": inp.to_json(), "fuel": fuel, "ops": ops_json(ops)}).to_string();
+    let parse = |line: String| {
+        let v: Value = serde_json::from_str(&line).unwrap();
+        RanApi { res: v["api"].as_array().unwrap().iter().map(A::from_json).collect(), panic: v["panic"].as_str().map(|s| s.to_string()) }
+    };
+    match worker_request(req.clone(), 4) {
+        Ok(l) => parse(l),
+        Err(p) if p.starts_with("HANG") => match worker_request(req, 15) {
+            Ok(l) => parse(l),
+            Err(p) => RanApi { res: vec![], panic: Some(p) },
+        },
+        Err(p) => RanApi { res: vec![], panic: Some(p) },
+    }
+}
+fn run_isolated_once(inp: &Input, fuel: usize, extra: usize, secs: u64) -> Ran {
+    let req = json!({"input": inp.to_json(), "fuel": fuel, "extra": extra}).to_string();
+    match worker_request(req, secs) {
+        Ok(line) => ran_from_json(&serde_json::from_str(&line).unwrap()),
+        Err(why) => {
+            Ran { max_alloc: 0, t1: vec![], pae1: 0, t2: vec![], pae2: 0, drained: false, panic: Some(why), bp_err: None, bp_end: 0, err_text: None }
         }
     }
 }
@@ -680,10 +884,6 @@ fn all_data(inp: &Input) -> Vec<u8> {
         }
     }
     v
-}
-
-fn lenient_truncation() -> bool {
-    std::env::args().any(|a| a == "--lenient-truncation")
 }
 
 fn case(out: &mut Out, kind: &str, inp: &Input) {
@@ -710,10 +910,19 @@ fn case(out: &mut Out, kind: &str, inp: &Input) {
     // decompression results of the real libraries for every flagged frame of the input, and
     // (prost) the decoder's verdict on every payload it could be handed
     let mut ztab: Vec<(u8, Vec<u8>, Option<Vec<u8>>)> = vec![];
+    // largest partial output of a failing decompression / largest output beyond the size limit
+    // (the limit bounds the COMPRESSED length only), both computed with the real libraries
+    let mut zpart = 0usize;
+    let mut zexcess = 0usize;
     if let Some(e) = inp.enc {
         for (fl, p) in &frames {
             if *fl == 1 && !ztab.iter().any(|(_, q, _)| q == p) {
-                ztab.push((e.num(), p.clone(), real_decompress(e, p)));
+                let out = real_decompress(e, p);
+                match &out {
+                    Some(o) => zexcess = zexcess.max(o.len().saturating_sub(lim)),
+                    None => zpart = zpart.max(real_decompress_partial(e, p)),
+                }
+                ztab.push((e.num(), p.clone(), out));
             }
         }
     }
@@ -780,14 +989,16 @@ fn case(out: &mut Out, kind: &str, inp: &Input) {
         }
     };
     let n_trailers = inp.evs.iter().filter(|e| matches!(e, E::Trailers(_) | E::BigTrailers(..))).count();
+    let trailer_entries: usize = inp.evs.iter().map(|e| match e { E::Trailers(t) => t.len(), E::BigTrailers(n, _) => *n, _ => 0 }).sum();
     if let Some(p) = &ran.panic {
         if p.starts_with("HANG") {
             fail(format!("hang: {}", p));
         } else if p.starts_with("ABORT") {
             fail(format!("abort: {}", p));
-        } else if ran.drained && n_trailers >= 2 && p.contains("MAX_SIZE") {
+        } else if ran.drained && n_trailers >= 2 && trailer_entries > HM_SAFE_ENTRIES && p.contains("MAX_SIZE") {
             // outside the property's inputs: a body that goes on after its trailers, polled again
-            // after the stream had ended, overflows http's HeaderMap (modelled: extend_may_panic)
+            // after the stream had ended, overflows http's HeaderMap (modelled: extend_may_panic);
+            // excused only when the blocks together hold more entries than http can always take
             out.hist("panic_outside_domain", "second trailers block overflows HeaderMap::extend, polled past the end");
         } else {
             fail(format!("panic: {}", p));
@@ -812,6 +1023,24 @@ fn case(out: &mut Out, kind: &str, inp: &Input) {
             },
         }
     }
+    // frame boundaries are those of an independent walk over the 5-byte prefixes of the INPUT: an
+    // error about a compression flag can only name a flag byte that sits at such a boundary (never a
+    // byte inside another frame's payload, e.g. behind the end of a compressed stream)
+    if let Some(t) = &ran.err_text {
+        let mut flags: Vec<u8> = frames.iter().map(|f| f.0).collect();
+        if leftover >= 5 {
+            flags.push(data[data.len() - leftover]);
+        }
+        if t.contains("invalid compression flag") && flags.iter().all(|f| *f <= 1) {
+            fail(format!("spurious error '{}': every frame of the input has flag 0 or 1", t));
+        }
+        if t.contains("compressed-flag but no grpc-encoding") && (inp.enc.is_some() || flags.iter().all(|f| *f != 1)) {
+            fail(format!("spurious error '{}': no frame of the input is flagged without a negotiated encoding", t));
+        }
+        if t.contains("message length too large") && !frames.iter().map(|f| f.1.len()).chain(if leftover >= 5 { let h = &data[data.len() - leftover..]; Some(u32::from_be_bytes([h[1], h[2], h[3], h[4]]) as usize) } else { None }).any(|l| l > lim) {
+            fail(format!("spurious error '{}': no frame of the input declares more than the limit {}", t, lim));
+        }
+    }
     if let Some(exp) = &inp.expect {
         let got: Vec<Vec<u8>> = ran.t1.iter().filter_map(|r| if let R::Ok(p) = r { Some(p.clone()) } else { None }).collect();
         if &got != exp {
@@ -832,7 +1061,14 @@ fn case(out: &mut Out, kind: &str, inp: &Input) {
             .saturating_mul(2)
             .saturating_add(data.len() * 4)
             .saturating_add(inp.buffer_size * 2)
-            .saturating_add(1 << 20);
+            .saturating_add(1 << 20)
+            // decompressed bytes beyond the limit / written before a decompression failed: nothing in
+            // tonic bounds them (0 for every case without such a frame)
+            .saturating_add(zexcess.saturating_mul(4))
+            .saturating_add(zpart.saturating_mul(4));
+        if zexcess > 0 {
+            out.hist("decompressed_beyond_limit", match zexcess { 0..=65536 => "<=64KiB", 65537..=1048576 => "<=1MiB", _ => ">1MiB" });
+        }
         if ran.max_alloc > bound {
             fail(format!("a single allocation of {} bytes was requested (limit {}, {} data bytes received)", ran.max_alloc, lim, data.len()));
         }
@@ -845,8 +1081,7 @@ fn case(out: &mut Out, kind: &str, inp: &Input) {
         let terminator = term_idx.map(|i| &inp.evs[i]);
         // truncation: a body that ends - plainly or with a trailers frame, whatever it carries -
         // inside a frame must yield an error before the end of the stream
-        // (`--lenient-truncation` switches this clause off)
-        if !lenient_truncation() && leftover_pre > 0 && !matches!(terminator, Some(E::Err(_))) && !t1_err {
+        if leftover_pre > 0 && !matches!(terminator, Some(E::Err(_))) && !t1_err {
             fail(format!(
                 "truncated input: {} bytes of an incomplete frame {} ended the stream cleanly",
                 leftover_pre,
@@ -880,12 +1115,82 @@ fn case(out: &mut Out, kind: &str, inp: &Input) {
                 fail(format!("OUT_OF_RANGE although no frame exceeds the limit {}", lim));
             }
         }
-        // a body error is reported (except CANCELLED on the request side, which ends the stream)
-        if let Some(E::Err(c)) = terminator {
-            if !(inp.dir == Dir::Request && *c == 1) && !t1_err {
-                fail(format!("body error {} was not reported", c));
+        // a header that is refused needs only its five bytes: an illegal flag (or flag 1 without a
+        // negotiated encoding) in the bytes of an incomplete frame is an error right after the
+        // messages before it
+        let legal = |fl: u8| fl == 0 || (fl == 1 && inp.enc.is_some());
+        let hostile_complete = frames_pre.iter().position(|f| frame_value(f).is_none());
+        let cut_header: Option<(u8, usize)> = if leftover_pre >= 5 {
+            let h = &pre_data[pre_data.len() - leftover_pre..];
+            Some((h[0], u32::from_be_bytes([h[1], h[2], h[3], h[4]]) as usize))
+        } else {
+            None
+        };
+        let header_refused = matches!(cut_header, Some((fl, len)) if !legal(fl) || len > lim);
+        if hostile_complete.is_none() {
+            if let Some((fl, _)) = cut_header {
+                if !legal(fl) && (!t1_err || t1_oks != frames_pre.len()) {
+                    fail(format!("incomplete frame with illegal flag {}: expected {} messages then an error, got {} messages{}", fl, frames_pre.len(), t1_oks, if t1_err { " then an error" } else { " and no error" }));
+                }
             }
         }
+        // a body error is reported - except CANCELLED on the request side (N-C07-1), which ends the
+        // stream cleanly: then every complete frame received before it has been delivered and no
+        // error is yielded (unless a frame / header before it had to be refused)
+        if let Some(E::Err(c)) = terminator {
+            let cancelled_request = inp.dir == Dir::Request && *c == 1;
+            if !cancelled_request && !t1_err {
+                fail(format!("body error {} was not reported", c));
+            }
+            if cancelled_request && hostile_complete.is_none() && !header_refused {
+                if t1_err {
+                    fail("request body CANCELLED: the stream yielded an error although nothing before the cancellation had to be refused".into());
+                } else if t1_oks != frames_pre.len() {
+                    fail(format!("request body CANCELLED: {} complete frames were received before it but {} messages delivered", frames_pre.len(), t1_oks));
+                }
+            }
+        }
+        // polls after the end.  When the script holds nothing but Pending after the point where the
+        // drain stopped (the body has ended for good), later polls never yield a message; they yield
+        // one Err(INTERNAL) - after the None - exactly when a request body was CANCELLED inside a
+        // frame (the stream had ended cleanly on a cut message), otherwise only None
+        {
+            let rest: &[E] = match term_idx { Some(i) => &inp.evs[i + 1..], None => &[] };
+            let body_over = rest.iter().all(|e| matches!(e, E::Pending));
+            if body_over && !t1_err {
+                let later: Vec<&R> = ran.t2.iter().filter(|r| !matches!(r, R::Pending)).collect();
+                let cut_cancel = matches!(terminator, Some(E::Err(1))) && inp.dir == Dir::Request && leftover_pre > 0;
+                if let Some(bad) = later.iter().find(|r| matches!(r, R::Ok(_))) {
+                    fail(format!("a message was yielded after the end of the stream over an ended body: {:?}", bad));
+                }
+                if cut_cancel {
+                    if let Some(first) = later.first() {
+                        if **first != R::Err(13) {
+                            fail(format!("request body CANCELLED inside a frame, polled on over the ended body: expected Err(INTERNAL) then None, got {:?}", first));
+                        }
+                    }
+                    out.hist("cancelled_request", "inside a frame: None, then Err(INTERNAL) once the body has ended, then None");
+                } else {
+                    if let Some(bad) = later.iter().find(|r| !matches!(r, R::Done)) {
+                        fail(format!("after a clean end over an ended body the stream answered {:?}", bad));
+                    }
+                    if matches!(terminator, Some(E::Err(1))) && inp.dir == Dir::Request {
+                        out.hist("cancelled_request", "between frames: None for ever");
+                    }
+                }
+            }
+        }
+        // the body underneath: never polled again once an error has been yielded (the first error is
+        // final), and each later poll polls an ended body at most once (no busy loop on it)
+        if let Some(bp) = ran.bp_err {
+            if ran.bp_end != bp {
+                fail(format!("the body was polled {} more times after the stream had yielded its error", ran.bp_end - bp));
+            }
+        }
+        if ran.pae2 > ran.pae1 + ran.t2.len() {
+            fail(format!("{} polls after the end polled the ended body {} times", ran.t2.len(), ran.pae2 - ran.pae1));
+        }
+        out.hist("ended_body_polls_per_later_poll", if ran.t2.is_empty() { "n/a".to_string() } else { format!("{:.1}", (ran.pae2 - ran.pae1) as f64 / ran.t2.len() as f64) });
         // a hostile COMPLETE frame (illegal flag, flag 1 without encoding, over the limit,
         // undecompressable, undecodable) is reported right after the messages before it
         if let Some(i) = frames_pre.iter().position(|f| frame_value(f).is_none()) {
@@ -923,15 +1228,14 @@ fn case(out: &mut Out, kind: &str, inp: &Input) {
     if leftover_pre > 0 {
         out.hist("truncated_input", match term_idx.map(|i| &inp.evs[i]) {
             None => "then plain end of body (judged: must end with an error)",
-            Some(E::Err(1)) if inp.dir == Dir::Request => "then CANCELLED on the request side (clean end by design, not judged)",
+            Some(E::Err(1)) if inp.dir == Dir::Request => "then CANCELLED on the request side (judged: clean end after every complete frame; later polls: one Err(INTERNAL), no message)",
             Some(E::Err(_)) => "then a body error (judged: the error is reported)",
             Some(_) => "then a trailers frame (judged: must end with an error)",
         });
     }
-    let _ = leftover;
 
     let model = format!(
-        "obs_case {} {} {} {} {} {} {} {} {} {} {}",
+        "obs_case_x {} {} {} {} {} {} {} {} {} {} {} {}",
         if inp.codec == Codec::Prost {
             format!("(Some {})", coq_list(&ptab, |(p, r)| format!("({},{})", coq_bytes_seg(p), coq_opt(r, |x| coq_bytes_seg(x)))))
         } else {
@@ -946,10 +1250,196 @@ fn case(out: &mut Out, kind: &str, inp: &Input) {
         extra,
         ran.max_alloc,
         data.len(),
-        inp.buffer_size
+        inp.buffer_size,
+        zpart
     );
     let nontrivial = data.len() >= 5 && (n_data >= 2 || inp.expect.is_none());
     out.push(Case { kind: kind.to_string(), input: inp.to_json(), model, impl_obs, oracle: why, nontrivial });
+}
+
+
+/// kinds api.*: a caller of Streaming::message() / Streaming::trailers()
+fn case_api(out: &mut Out, kind: &str, inp: &Input, ops: &[Op]) {
+    let data = all_data(inp);
+    let (frames, _) = parse_frames(&data);
+    let fuel = inp.evs.len() + frames.len() + 3;
+    let ra = run_api_isolated(inp, ops, fuel);
+    let lim = if inp.dir == Dir::Empty { DEFAULT_LIMIT } else { inp.max.unwrap_or(DEFAULT_LIMIT) };
+    let mut ztab: Vec<(u8, Vec<u8>, Option<Vec<u8>>)> = vec![];
+    if let Some(e) = inp.enc {
+        for (fl, p) in &frames {
+            if *fl == 1 && !ztab.iter().any(|(_, q, _)| q == p) {
+                ztab.push((e.num(), p.clone(), real_decompress(e, p)));
+            }
+        }
+    }
+    let frame_value = |f: &(u8, Vec<u8>)| -> Option<Vec<u8>> {
+        if f.1.len() > lim {
+            return None;
+        }
+        match f.0 {
+            0 => decodes(inp.codec, &f.1),
+            1 => inp.enc.and_then(|e| real_decompress(e, &f.1)).and_then(|q| decodes(inp.codec, &q)),
+            _ => None,
+        }
+    };
+    let mut ptab: Vec<(Vec<u8>, Option<Vec<u8>>)> = vec![];
+    if inp.codec == Codec::Prost {
+        for (fl, p) in &frames {
+            let input = match fl {
+                0 => Some(p.clone()),
+                1 => inp.enc.and_then(|e| real_decompress(e, p)),
+                _ => None,
+            };
+            if let Some(i) = input {
+                if !ptab.iter().any(|(q, _)| q == &i) {
+                    let v = decodes(Codec::Prost, &i);
+                    ptab.push((i, v));
+                }
+            }
+        }
+    }
+    let mut obs: Vec<Tr> = ra.res.iter().map(|a| a.tr()).collect();
+    if let Some(p) = &ra.panic {
+        let hang = p.starts_with("HANG") || p.starts_with("ABORT");
+        obs.push(if hang { Tr::L(vec![Tr::n(6u8)]) } else { R::Panic.tr() });
+    }
+    let impl_obs = Tr::L(obs);
+
+    // ---- direct oracle
+    let mut why: Option<String> = None;
+    let mut fail = |s: String| {
+        if why.is_none() {
+            why = Some(s)
+        }
+    };
+    if let Some(p) = &ra.panic {
+        fail(format!("{}: {}", if p.starts_with("HANG") { "hang" } else if p.starts_with("ABORT") { "abort" } else { "panic" }, p));
+    }
+    if ra.res.iter().any(|a| *a == A::Fuel) {
+        fail(format!("a call of message() / trailers() did not return within {} polls", fuel));
+    }
+    let msgs: Vec<&Vec<u8>> = ra.res.iter().filter_map(|a| if let A::Msg(p) = a { Some(p) } else { None }).collect();
+    if let Some(i) = ra.res.iter().position(|a| matches!(a, A::Err(_))) {
+        if let Some(bad) = ra.res[i + 1..].iter().find(|a| matches!(a, A::Err(_) | A::Msg(_))) {
+            fail(format!("after the first error the stream answered {:?}", bad));
+        }
+    }
+    // trailers() drops the messages it drains, so the i-th message handed out is SOME later frame:
+    // judge order-preserving embedding into the frames, and exact positions up to the first trailers()
+    let first_t = ops.iter().position(|o| *o == Op::Trailers).unwrap_or(ops.len());
+    let n_before = ra.res.iter().take(first_t).filter(|a| matches!(a, A::Msg(_))).count();
+    for (i, got) in msgs.iter().enumerate().take(n_before) {
+        match frames.get(i).map(|f| frame_value(f)) {
+            Some(Some(v)) if &v == *got => {}
+            _ => fail(format!("message {} is not what frame {} of the input stands for", i, i)),
+        }
+    }
+    {
+        let mut k = 0usize;
+        for got in &msgs {
+            while k < frames.len() && frame_value(&frames[k]).as_ref() != Some(*got) {
+                k += 1;
+            }
+            if k == frames.len() {
+                fail("a message was handed out that no remaining frame of the input stands for".into());
+                break;
+            }
+            k += 1;
+        }
+    }
+    if let Some(exp) = &inp.expect {
+        if ra.res.iter().any(|a| matches!(a, A::Err(_))) {
+            fail("valid stream: a call returned an error".into());
+        }
+        // the first trailers() of a valid stream returns its trailers block (or None), later ones None
+        let want: Option<HeaderMap> = match inp.evs.last() {
+            Some(E::Trailers(t)) => Some(trailers_map(t)),
+            _ => None,
+        };
+        let mut seen = false;
+        for (o, a) in ops.iter().zip(ra.res.iter()) {
+            if *o == Op::Trailers {
+                let expect_now = if seen { None } else { want.clone() };
+                match (a, expect_now) {
+                    (A::TrSome(m), Some(w)) if *m == w => {}
+                    (A::TrNone, None) => {}
+                    (a, w) => fail(format!("valid stream: trailers() returned {:?}, expected {:?}", a, w)),
+                }
+                seen = true;
+            }
+        }
+        if n_before > exp.len() {
+            fail("valid stream: more messages than were sent".into());
+        }
+    }
+    // an input that must fail, consumed to its end through the API, must hand out an error: a hostile
+    // complete frame, a refused header, a truncation (plain end / trailers inside a frame), a body
+    // error other than request + CANCELLED - judged when nothing but Pending follows the terminator
+    {
+        let term_idx = inp.evs.iter().position(|e| matches!(e, E::Trailers(_) | E::BigTrailers(..) | E::Err(_)));
+        let in_domain = match term_idx { Some(i) => inp.evs[i + 1..].iter().all(|e| matches!(e, E::Pending)), None => true };
+        let mut pre_data = vec![];
+        for e in &inp.evs[..term_idx.unwrap_or(inp.evs.len())] {
+            if let E::Data(d) = e {
+                pre_data.extend_from_slice(d);
+            }
+        }
+        let (frames_pre, leftover_pre) = parse_frames(&pre_data);
+        let legal = |fl: u8| fl == 0 || (fl == 1 && inp.enc.is_some());
+        let hostile = frames_pre.iter().any(|f| frame_value(f).is_none());
+        let refused = leftover_pre >= 5 && {
+            let h = &pre_data[pre_data.len() - leftover_pre..];
+            !legal(h[0]) || u32::from_be_bytes([h[1], h[2], h[3], h[4]]) as usize > lim
+        };
+        let terminator = term_idx.map(|i| &inp.evs[i]);
+        let truncated = leftover_pre > 0 && !matches!(terminator, Some(E::Err(_)));
+        let body_err = matches!(terminator, Some(E::Err(c)) if !(inp.dir == Dir::Request && *c == 1));
+        let must_fail = hostile || refused || truncated || body_err;
+        let consumed = ra.res.iter().any(|a| matches!(a, A::MsgNone | A::TrSome(_) | A::TrNone));
+        if in_domain && must_fail && consumed && ra.panic.is_none() && !ra.res.iter().any(|a| matches!(a, A::Err(_))) {
+            fail(format!(
+                "the stream was consumed to its end through message() / trailers() without an error although the input must fail ({})",
+                if hostile { "a complete frame is not a message" } else if refused { "a frame header must be refused" } else if truncated { "it is cut inside a frame" } else { "body error" }
+            ));
+        }
+        if in_domain && must_fail {
+            out.hist("api_must_fail", if consumed { "consumed to the end (judged)" } else { "ops stop before the end" });
+        }
+    }
+    out.hist("api_ops", ops.iter().map(|o| if *o == Op::Message { 'm' } else { 't' }).collect::<String>());
+    out.hist("api_trailers_result", match ra.res.iter().zip(ops.iter()).find(|(_, o)| **o == Op::Trailers).map(|(a, _)| a) {
+        Some(A::TrSome(_)) => "Some", Some(A::TrNone) => "None", Some(A::Err(_)) => "Err", Some(_) => "other", None => "not called" });
+
+    let model = format!(
+        "obs_api {} {} {} {} {} {} {} {}",
+        if inp.codec == Codec::Prost {
+            format!("(Some {})", coq_list(&ptab, |(p, r)| format!("({},{})", coq_bytes_seg(p), coq_opt(r, |x| coq_bytes_seg(x)))))
+        } else {
+            "None".to_string()
+        },
+        coq_dir(inp.dir),
+        coq_opt(&inp.enc, |e| e.num().to_string()),
+        coq_opt(&inp.max, |m| m.to_string()),
+        coq_list(&ztab, |(e, p, r)| format!("({},{},{})", e, coq_bytes_seg(p), coq_opt(r, |x| coq_bytes_seg(x)))),
+        coq_list(&inp.evs, coq_ev),
+        fuel,
+        coq_list(ops, |o| if *o == Op::Message { "OpMessage".to_string() } else { "OpTrailers".to_string() })
+    );
+    let mut input = inp.to_json();
+    input["ops"] = ops_json(ops);
+    out.push(Case { kind: kind.to_string(), input, model, impl_obs, oracle: why, nontrivial: data.len() >= 5 });
+}
+fn gen_ops(r: &mut Rng) -> Vec<Op> {
+    match r.below(8) {
+        0 => vec![Op::Trailers],
+        1 => vec![Op::Trailers, Op::Trailers, Op::Message],
+        2 => vec![Op::Message, Op::Trailers, Op::Message, Op::Trailers],
+        _ => {
+            let n = r.range(2, 8);
+            (0..n).map(|_| if r.chance(2, 3) { Op::Message } else { Op::Trailers }).collect()
+        }
+    }
 }
 
 // ------------------------------------------------------------------ generators
@@ -1385,7 +1875,11 @@ fn main() {
         let v: Value = serde_json::from_str(&std::fs::read_to_string(f).unwrap()).unwrap();
         let inp = Input::from_json(&v["input"]);
         let kind = v["kind"].as_str().unwrap_or("replay").to_string();
-        case(&mut out, &kind, &inp);
+        if v["input"].get("ops").is_some() {
+            case_api(&mut out, &kind, &inp, &ops_from_json(&v["input"]["ops"]));
+        } else {
+            case(&mut out, &kind, &inp);
+        }
         out.finish(IMPORTS, "replay of one stored case", json!({}));
         return;
     }
@@ -1424,6 +1918,39 @@ fn main() {
                 case(&mut out, "corpus.F-C07f", &base(d, None, None, vec![E::Data(data.clone()), E::Trailers(vec![])], None));
                 case(&mut out, "corpus.F-C07f", &base(d, None, None, vec![E::Data(data.clone()), E::Err(1)], None));
             }
+        }
+        // N-C07-1: a request body CANCELLED inside / between frames (clean end; the audit's witnesses)
+        {
+            let cut = vec![0u8, 0, 0, 0, 5, 1, 2];
+            let mut a3 = fa.clone();
+            a3.extend([0, 0, 0]);
+            case(&mut out, "corpus.N-C07-1", &base(Dir::Request, None, None, vec![E::Data(cut.clone()), E::Err(1)], None));
+            case(&mut out, "corpus.N-C07-1", &base(Dir::Request, None, None, vec![E::Data(vec![0, 0, 0, 0, 2, 0x41]), E::Err(1), E::Data(vec![0x42])], None));
+            case(&mut out, "corpus.N-C07-1", &base(Dir::Request, None, None, vec![E::Data(fa.clone()), E::Err(1)], None));
+            case(&mut out, "corpus.N-C07-1", &base(Dir::Request, None, None, vec![E::Data(a3.clone()), E::Pending, E::Err(1), E::Pending], None));
+            case(&mut out, "corpus.N-C07-1", &base(Dir::Request, None, None, vec![E::Data(vec![0, 0, 0, 0, 5]), E::Err(1), E::Pending, E::Pending], None));
+            case(&mut out, "corpus.N-C07-1", &base(Dir::Request, None, None, vec![E::Err(1)], None));
+            case(&mut out, "corpus.N-C07-1", &base(Dir::Request, None, None, vec![E::Data(vec![2, 0, 0, 0, 0]), E::Err(1)], None));
+            case(&mut out, "corpus.N-C07-1", &base(Dir::Request, None, Some(1), vec![E::Data(vec![0, 0, 0, 0, 2]), E::Err(1)], None));
+            case(&mut out, "corpus.N-C07-1", &base(Dir::Request, None, None, vec![E::Trailers(tr(OK_TRAILERS)), E::Data(cut.clone()), E::Err(1)], None));
+            for d in [Dir::Response(200), Dir::Empty] {
+                case(&mut out, "corpus.N-C07-1", &base(d, None, None, vec![E::Data(cut.clone()), E::Err(1)], None));
+                case(&mut out, "corpus.N-C07-1", &base(d, None, None, vec![E::Data(fa.clone()), E::Err(1)], None));
+            }
+            for c in [2, 13, 14] {
+                case(&mut out, "corpus.N-C07-1", &base(Dir::Request, None, None, vec![E::Data(cut.clone()), E::Err(c)], None));
+            }
+            // the API on the same inputs: trailers() over a cancelled request, over F-C07f
+            let ops = [Op::Message, Op::Trailers, Op::Trailers, Op::Message];
+            case_api(&mut out, "corpus.api", &base(Dir::Request, None, None, vec![E::Data(cut.clone()), E::Err(1)], None), &ops);
+            case_api(&mut out, "corpus.api", &base(Dir::Response(200), None, None, vec![E::Data(cut.clone()), E::Trailers(tr(OK_TRAILERS))], None), &ops);
+            case_api(&mut out, "corpus.api", &base(Dir::Response(200), None, None, vec![E::Data(cut.clone()), E::Trailers(tr(OK_TRAILERS))], None), &[Op::Trailers, Op::Trailers]);
+            case_api(&mut out, "corpus.api", &base(Dir::Response(200), None, None, vec![E::Data(fa.clone()), E::Data(fb.clone()), E::Trailers(tr(&[("grpc-status", b"0"), ("x-extra", b"1")]))], Some(vec![b"A".to_vec(), b"B".to_vec()])), &[Op::Message, Op::Trailers, Op::Trailers, Op::Message]);
+            case_api(&mut out, "corpus.api", &base(Dir::Response(200), None, None, vec![E::Data(fa.clone()), E::Pending, E::Data(fb.clone()), E::Pending, E::Trailers(tr(OK_TRAILERS))], Some(vec![b"A".to_vec(), b"B".to_vec()])), &[Op::Trailers, Op::Message, Op::Trailers]);
+            case_api(&mut out, "corpus.api", &base(Dir::Response(200), None, None, vec![E::Data(fa.clone()), E::Trailers(tr(&[("grpc-status", b"5")]))], None), &[Op::Trailers, Op::Trailers, Op::Message]);
+            case_api(&mut out, "corpus.api", &base(Dir::Request, None, None, vec![E::Data(fa.clone()), E::Err(14)], None), &[Op::Trailers, Op::Message, Op::Trailers]);
+            case_api(&mut out, "corpus.api", &base(Dir::Request, None, None, vec![E::Data(fa.clone())], Some(vec![b"A".to_vec()])), &[Op::Message, Op::Message, Op::Trailers]);
+            case_api(&mut out, "corpus.api", &base(Dir::Response(404), None, None, vec![], None), &[Op::Trailers, Op::Message]);
         }
         // HeaderMap::extend on a second trailers block (only reachable by polling past the end)
         case(&mut out, "corpus.trailers-capacity", &base(Dir::Request, None, None, vec![E::BigTrailers(24576, 1), E::BigTrailers(1, 2)], None));
@@ -1597,6 +2124,24 @@ fn main() {
                 case(&mut out, "mutated.body-error-every-position", &Input { codec: Codec::Raw, dir: if at % 2 == 0 { Dir::Request } else { Dir::Response(200) }, enc: *enc, max: None, buffer_size: 8192, evs, expect: None });
             }
         }
+        // N-C07-1: a CANCELLED body error at every byte position (request: clean end; response: reported),
+        // the body then ends / stays pending for a while / (out of domain) goes on
+        for (si, (enc, _msgs, wire)) in streams.iter().enumerate() {
+            let step = if a.thorough || si == 0 { 1 } else { 2 };
+            for at in (0..=wire.len()).step_by(step) {
+                let mut evs: Vec<E> = if at == 0 { vec![] } else { cut_at(&wire[..at], &[at / 2]).into_iter().map(E::Data).collect() };
+                evs.push(E::Err(1));
+                match at % 3 {
+                    0 => {}
+                    1 => evs.extend([E::Pending, E::Pending]),
+                    _ => evs.push(E::Data(wire[at..].to_vec())),
+                }
+                case(&mut out, "cancel.request", &Input { codec: Codec::Raw, dir: Dir::Request, enc: *enc, max: None, buffer_size: 8192, evs: evs.clone(), expect: None });
+                if a.thorough || at % 3 == 0 {
+                    case(&mut out, "cancel.response", &Input { codec: Codec::Raw, dir: Dir::Response(200), enc: *enc, max: None, buffer_size: 8192, evs, expect: None });
+                }
+            }
+        }
         // all chunkings of a short body (thorough: 2^(n-1) for n = 12; quick: n = 8)
         let m: Vec<Vec<u8>> = if a.thorough { vec![b"A".to_vec(), b"B".to_vec()] } else { vec![b"A".to_vec(), vec![]] };
         let mut w = vec![];
@@ -1646,6 +2191,156 @@ fn main() {
             let evs: Vec<E> = cut_at(&wire, &cuts).into_iter().map(E::Data).collect();
             let inp = Input { codec: Codec::Raw, dir: Dir::Request, enc: Some(e), max: None, buffer_size: bs, evs, expect: Some(vec![b"first".to_vec(), m, b"last".to_vec()]) };
             case(&mut out, "valid.large-compressed", &inp);
+        }
+    }
+
+    // ---------------- decompression: what bounds the output, what is reserved (M17) ------------
+    // bomb.*: a tiny compressed frame far below the size limit that expands far beyond it - the limit
+    // bounds the compressed length only, the message is delivered; bomb.truncated: the same frame cut
+    // short, so that the decompressor fails after having written (almost) everything
+    {
+        // quick: 400 KB (the expansion is delivered; its allocation stays inside the 1 MiB slack of the
+        // allocation clauses); thorough: 2 MB (the allocation clauses bind)
+        let n = if a.thorough { 2_000_000 } else { 400_000 };
+        for e in ENCS {
+            let m = vec![0u8; n];
+            let c = real_compress(e, &m);
+            let mut wire = frame(0, b"first");
+            wire.extend(frame(1, &c));
+            let evs: Vec<E> = cut_at(&wire, &[3, 15]).into_iter().map(E::Data).collect();
+            case(&mut out, "bomb.delivered", &Input { codec: Codec::Raw, dir: Dir::Request, enc: Some(e), max: Some(c.len().max(5)), buffer_size: 8192, evs, expect: Some(vec![b"first".to_vec(), m]) });
+            if e == Enc::Gzip || (a.thorough && e == Enc::Zstd) {
+                let mut wire = frame(0, b"first");
+                wire.extend(frame(1, &c[..c.len() - 3]));
+                case(&mut out, "bomb.truncated", &Input { codec: Codec::Raw, dir: Dir::Response(200), enc: Some(e), max: Some(c.len()), buffer_size: 64, evs: vec![E::Data(wire)], expect: None });
+            }
+        }
+    }
+    // trailing.*: a flag-1 frame whose compressed stream ENDS EARLY inside the frame: payload =
+    // complete compressed stream of m || trailing bytes, the trailing part reaching far beyond the 32 KiB
+    // blocks a decompressor pulls (declared length > 32768 / 65536 / 131072) - zero padding (= a run of
+    // well-formed empty gRPC frames 00 00 00 00 00), well-formed frames 00 00 00 00 03 'x' 'y' 'z', one
+    // well-formed big frame, random bytes - or swallowing later genuine frames by an enlarged declared
+    // length; genuine frames follow.  The whole declared frame must be consumed: exactly the genuine
+    // messages (flate2 ignores what follows the stream; zstd rejects it: then one error), and nothing
+    // behind the end of the compressed stream is ever parsed as a frame.
+    {
+        let mut rr = Rng::new(a.seed ^ 0x7A11);
+        let xyz = frame(0, b"xyz");
+        let lens: &[usize] = &[40_000, 70_000, 140_000];
+        let mut k = 0usize;
+        let mut combo = 0usize;
+        for e in ENCS {
+            for (li, tl) in lens.iter().enumerate() {
+                combo += 1;
+                let variants: Vec<usize> = if a.thorough { vec![0, 1, 2, 3, 4] } else if li == 0 { vec![combo % 3, 3, 4] } else { vec![combo % 3, 3] };
+                for v in variants {
+                    let m: Vec<u8> = (0..rr.range(1, 120)).map(|i| b'a' + (i % 26) as u8).collect();
+                    let mut p = real_compress(e, &m);
+                    let later = { let mut w = frame(0, b"B"); w.extend(frame(1, &real_compress(e, b"CCCCCCCCCCCCCCCCCCCC"))); w };
+                    let name = match v {
+                        0 => { p.extend(vec![0u8; *tl]); "zero-padding" }
+                        1 => { for _ in 0..4 { p.extend(&xyz); } p.extend(vec![0u8; *tl]); p.extend(&xyz); "small-frames" }
+                        2 => { p.push(0); p.extend_from_slice(&(*tl as u32).to_be_bytes()); p.extend(vec![b'x'; *tl]); "one-big-frame" }
+                        3 => { p.extend(&later); p.extend(vec![0u8; *tl]); p.extend(&later); "swallows-later-frames" }
+                        _ => { let n = (*tl).min(if a.thorough { 70_000 } else { 40_000 }); p.extend(rr.bytes(n)); "random-bytes" }
+                    };
+                    let mut wire = frame(0, b"first");
+                    wire.extend(frame(1, &p));
+                    wire.extend(&later);
+                    let mut msgs = vec![b"first".to_vec()];
+                    let ok = match real_decompress(e, &p) {
+                        Some(o) => { msgs.push(o); msgs.push(b"B".to_vec()); msgs.push(b"CCCCCCCCCCCCCCCCCCCC".to_vec()); true }
+                        None => false,
+                    };
+                    let cuts = match k % 3 { 0 => vec![], 1 => vec![7, 9 + 5 + 3, wire.len() - 40], _ => random_cuts(&mut rr, wire.len()).into_iter().take(4).collect() };
+                    let evs: Vec<E> = cut_at(&wire, &cuts).into_iter().map(E::Data).collect();
+                    let dir = if k % 2 == 0 { Dir::Request } else { Dir::Response(200) };
+                    let inp = Input { codec: Codec::Raw, dir, enc: Some(e), max: None, buffer_size: *rr.pick(&[8192usize, 8192, 5, 100_000]), evs, expect: if ok { Some(msgs) } else { None } };
+                    case(&mut out, &format!("trailing.{}", name), &inp);
+                    k += 1;
+                }
+            }
+            // the same with short frames: the stream ends a few bytes before the frame does
+            for tl in [1usize, 8, 100] {
+                let m = b"short message".to_vec();
+                let mut p = real_compress(e, &m);
+                if tl == 8 { p.extend(&xyz); } else { p.extend(vec![0u8; tl]); }
+                let mut wire = frame(1, &p);
+                wire.extend(&xyz);
+                let ok = real_decompress(e, &p);
+                let cuts = random_cuts(&mut rr, wire.len());
+                let evs: Vec<E> = cut_at(&wire, &cuts).into_iter().map(E::Data).collect();
+                let inp = Input { codec: Codec::Raw, dir: Dir::Request, enc: Some(e), max: None, buffer_size: 8192, evs, expect: ok.map(|o| vec![o, b"xyz".to_vec()]) };
+                case(&mut out, "trailing.short", &inp);
+            }
+        }
+    }
+    // zcap.*: an incompressible payload (compressed length ~ its length) with the frame header
+    // delivered first: the capacity decompress() reserves - (2*len / max(bs,1) + 1) * max(bs,1) - is
+    // at least 64 KiB and must show up in the allocation meter, for buffer sizes 1 (2*len + 1) and 5000;
+    // valid.large-compressed does the same for 8192.  (With a buffer size above the capacity the clause
+    // is vacuous - Streaming::new allocates buffer_size itself - such cases only show "no panic".)
+    {
+        let mut rr = Rng::new(a.seed ^ 0x2CA9);
+        let sizes: &[(usize, usize)] = if a.thorough {
+            &[(0, 33_000), (1, 33_000), (5000, 36_000), (65_536, 36_000), (100_000, 4000), (1 << 20, 4000), (100_000, 60_000)]
+        } else {
+            &[(1, 33_000), (5000, 33_000), (100_000, 4000)]
+        };
+        for (k, (bs, len)) in sizes.iter().enumerate() {
+            let e = ENCS[k % 3];
+            let mut m = rr.bytes(*len);
+            m[0] &= 0x7F;
+            let wire = frame(1, &real_compress(e, &m));
+            let evs: Vec<E> = cut_at(&wire, &[5]).into_iter().map(E::Data).collect();
+            case(&mut out, "zcap", &Input { codec: Codec::Raw, dir: Dir::Request, enc: Some(e), max: None, buffer_size: *bs, evs, expect: Some(vec![m]) });
+        }
+    }
+
+    // ---------------- Streaming::message() / trailers() ---------------------------------------
+    {
+        let mut rr = Rng::new(a.seed ^ 0xA91);
+        for _ in 0..(if a.thorough { 800 } else { 140 }) * a.scale {
+            let enc = if rr.chance(1, 2) { Some(*rr.pick(&ENCS)) } else { None };
+            let (msgs, wire) = gen_valid(&mut rr, enc, 4);
+            let cuts = random_cuts(&mut rr, wire.len());
+            let chunks = if wire.is_empty() { vec![] } else { cut_at(&wire, &cuts) };
+            let pend = *rr.pick(&[0u64, 1, 3]);
+            let mut evs = chunks_to_events(&mut rr, chunks, pend);
+            let dir = *rr.pick(&[Dir::Request, Dir::Response(200), Dir::Response(200)]);
+            gen_ending(&mut rr, &mut evs, true, dir);
+            let inp = Input { codec: Codec::Raw, dir, enc, max: None, buffer_size: gen_buffer_size(&mut rr), evs, expect: Some(msgs) };
+            let ops = gen_ops(&mut rr);
+            case_api(&mut out, "api.valid", &inp, &ops);
+        }
+        for _ in 0..(if a.thorough { 1000 } else { 160 }) * a.scale {
+            let enc = if rr.chance(1, 2) { Some(*rr.pick(&ENCS)) } else { None };
+            let (_, wire) = gen_valid(&mut rr, enc, 3);
+            let (w, name) = mutate(&mut rr, enc, &wire);
+            let cuts = random_cuts(&mut rr, w.len());
+            let chunks = if w.is_empty() { vec![] } else { cut_at(&w, &cuts) };
+            let mut evs = chunks_to_events(&mut rr, chunks, 1);
+            if rr.chance(1, 5) && !evs.is_empty() {
+                let at = rr.below(evs.len() as u64 + 1) as usize;
+                evs.insert(at, E::Err(*rr.pick(&[1, 1, 13, 14])));
+            }
+            let dir = gen_dir(&mut rr);
+            // endings inside the property's inputs: nothing follows the trailers / the error
+            match rr.below(4) {
+                0 => {}
+                1 | 2 => evs.push(E::Trailers(gen_trailers(&mut rr))),
+                _ => evs.push(E::Err(*rr.pick(&[1, 2, 14]))),
+            }
+            let enc = if dir == Dir::Empty { None } else { enc };
+            let inp = Input { codec: Codec::Raw, dir, enc, max: None, buffer_size: gen_buffer_size(&mut rr), evs, expect: None };
+            let ops = gen_ops(&mut rr);
+            case_api(&mut out, &format!("api.mutated.{}", name), &inp, &ops);
+        }
+        for _ in 0..(if a.thorough { 300 } else { 60 }) * a.scale {
+            let (inp, nm) = gen_prost_case(&mut rr);
+            let ops = gen_ops(&mut rr);
+            case_api(&mut out, &format!("api.prost.{}", nm), &inp, &ops);
         }
     }
 
@@ -1760,7 +2455,7 @@ fn main() {
 
     out.finish(
         IMPORTS,
-        "valid.*: streams of 0-6 messages (sizes 0,1,4,5,6, <=24, 64-300, around 8192) framed identity or compressed with the real gzip/deflate/zstd, every single cut position, all 2^(n-1) chunkings of a short body, byte-wise with Pending everywhere, random cuts / Pending / buffer sizes, ending plainly or with OK trailers - must deliver exactly the messages; mutated.*: the same streams with flag 2..255, corrupted length bytes, truncation at every byte, spliced / trailing garbage, compressed garbage, undecodable payloads (plain and compressed), flipped flag, declared lengths up to 2^32-1 without payload, flagged frames without negotiated encoding, body errors at every position, trailers OK / error / malformed / absent / followed by more frames; limit: L in {0,1,5,100,4 MiB default} x lengths L-1,L,L+1 x with / without payload x position 0..2; raw.*: random and header-biased byte strings. Each stream is drained with exactly #events + #frames + 2 polls of fuel and then polled min(len,40)+10 more times. Non-trivial = at least 5 data bytes and (>= 2 data chunks or not a valid stream). Distinct = distinct (kind, model expression).",
+        "valid.*: streams of 0-6 messages (sizes 0,1,4,5,6, <=24, 64-300, around 8192) framed identity or compressed with the real gzip/deflate/zstd, every single cut position, all 2^(n-1) chunkings of a short body, byte-wise with Pending everywhere, random cuts / Pending / buffer sizes, ending plainly or with OK trailers - must deliver exactly the messages; mutated.*: the same streams with flag 2..255, corrupted length bytes, truncation at every byte, spliced / trailing garbage, compressed garbage, undecodable payloads (plain and compressed), flipped flag, declared lengths up to 2^32-1 without payload, flagged frames without negotiated encoding, body errors at every position, trailers OK / error / malformed / absent / followed by more frames; limit: L in {0,1,5,100,4 MiB default} x lengths L-1,L,L+1 x with / without payload x position 0..2; raw.*: random and header-biased byte strings; cancel.*: a CANCELLED body error at every byte position of small streams (request: clean end after every complete frame, later polls judged; response: reported), followed by nothing / Pending / more data; bomb.*: tiny compressed frames under a tight limit expanding to 400 KB (thorough 2 MB), whole and cut short; trailing.*: flag-1 frames of 40 / 70 / 140 KB whose compressed stream ends early inside the frame (zero padding = empty gRPC frames, well-formed small / big frames, swallowed later frames, random bytes), genuine frames after them: exactly the genuine messages, nothing behind the end of the stream parsed as a frame; zcap: incompressible payloads with buffer sizes 1 / 100000 / 2^20 (decompress() capacity against the allocation meter); api.*: the same valid / mutated / prost streams consumed through Streaming::message() and Streaming::trailers() in random order (model obs_api). Each stream is drained with exactly #events + #frames + 2 polls of fuel and then polled min(len,40)+10 more times. Non-trivial = at least 5 data bytes and (>= 2 data chunks or not a valid stream). Distinct = distinct (kind, model expression).",
         json!({}),
     );
 }
